@@ -99,6 +99,12 @@ type SDUF struct {
 
 func (SDUF) DisallowUnknownFields() {}
 
+type SUnexpTag struct {
+	A int
+	b int `json:"b"`
+	C int `json:"c"`
+}
+
 var (
 	ctxType = reflect.TypeOf((*context.Context)(nil)).Elem()
 	errType = reflect.TypeOf((*error)(nil)).Elem()
@@ -263,8 +269,8 @@ var got []any
 func rec[T any](ctx context.Context, v T) (any, error) { got = append(got, v); return "done", nil }
 
 func variants() map[string]variant {
-	s2 := map[string]string{"objExact": `{"a":7,"b":"x"}`, "objSubset": `{"b":"x"}`, "objUnknown": `{"a":7,"zzz":1}`, "objWrongType": `{"a":"str"}`,
-		"arrN": `[7,"x"]`, "arrNminus1": `[7]`, "arrNplus1": `[7,"x",1]`, "arrWrongType": `["s","x"]`, "arrWithNull": `[null,"x"]`, "arrEmpty": `[]`, "null": `null`}
+	s2 := map[string]string{"objExact": `{"a":9007199254740993,"b":"x"}`, "objSubset": `{"b":"x"}`, "objUnknown": `{"a":7,"zzz":1}`, "objWrongType": `{"a":"str"}`,
+		"arrN": `[9007199254740993,"x"]`, "arrNminus1": `[7]`, "arrNplus1": `[7,"x",1]`, "arrWrongType": `["s","x"]`, "arrWithNull": `[null,"x"]`, "arrEmpty": `[]`, "null": `null`}
 	return map[string]variant{
 		"S2":   {rec[S2], []string{"a", "b"}, func() any { return new(S2) }, s2},
 		"PS2":  {rec[*S2], []string{"a", "b"}, func() any { return new(S2) }, s2},
@@ -277,6 +283,9 @@ func variants() map[string]variant {
 		"SEmbTag": {rec[SEmbTag], []string{"in"}, func() any { return new(SEmbTag) }, map[string]string{"objExact": `{"in":{"p":7}}`, "objSubset": `{}`,
 			"objUnknown": `{"in":{"p":7},"zzz":1}`, "objNestedUnknown": `{"in":{"p":7,"zzz":1}}`, "objWrongType": `{"in":5}`, "arrN": `[{"p":7}]`,
 			"arrNminus1": `[]`, "arrNplus1": `[{"p":7},1]`, "arrWrongType": `[5]`, "arrWithNull": `[null]`, "arrEmpty": `[]`, "null": `null`}},
+		"SUnexpTag": {rec[SUnexpTag], []string{"A", "c"}, func() any { return new(SUnexpTag) }, map[string]string{"objExact": `{"A":11,"c":22}`, "objSubset": `{"c":22}`,
+			"objUnknown": `{"A":11,"zzz":1}`, "objWrongType": `{"A":"s"}`, "arrN": `[11,22]`, "arrNminus1": `[11]`, "arrNplus1": `[11,22,33]`,
+			"arrWrongType": `["s",22]`, "arrWithNull": `[null,22]`, "arrEmpty": `[]`, "null": `null`}},
 		"SNone": {rec[SNone], nil, func() any { return new(SNone) }, map[string]string{"objExact": `{}`, "objSubset": `{}`, "objUnknown": `{"zzz":1}`,
 			"arrN": `[]`, "arrNplus1": `[1]`, "arrEmpty": `[]`, "null": `null`}},
 	}
@@ -446,8 +455,10 @@ var posKinds = []struct {
 	good  string
 	wrong string
 }{
-	{reflect.TypeOf(0), `7`, `"s"`}, {reflect.TypeOf(""), `"x"`, `5`}, {reflect.TypeOf(false), `true`, `"s"`},
-	{reflect.TypeOf([]int{}), `[1,2]`, `5`}, {reflect.TypeOf(S2{}), `{"a":1,"b":"y"}`, `5`}, {reflect.TypeOf(new(int)), `9`, `"s"`},
+	// values chosen so that they do not survive a detour through float64 / generic decoding
+	{reflect.TypeOf(int64(0)), `9007199254740993`, `"s"`}, {reflect.TypeOf(""), `"x"`, `5`},
+	{reflect.TypeOf(json.RawMessage(nil)), `{"b":1,"a":0.10000000000000000001}`, ``}, {reflect.TypeOf(uint64(0)), `18446744073709551615`, `-1`},
+	{reflect.TypeOf(false), `true`, `"s"`}, {reflect.TypeOf(S2{}), `{"a":9223372036854775807,"b":"y"}`, `5`},
 }
 
 func checkPos(c PosCell, res *result) {
@@ -469,6 +480,9 @@ func checkPos(c PosCell, res *result) {
 	for at := 0; at < n; at++ { // position of the null / wrong element, or of the dropped name
 		if at > 0 && !strings.Contains(c.P, "At") && c.P != "objSubset" && c.P != "objWrongType" {
 			break
+		}
+		if (c.P == "arrWrongAt" || c.P == "objWrongType") && posKinds[at%len(posKinds)].wrong == "" {
+			continue // raw JSON accepts any value: there is no wrong type at this position
 		}
 		elems := make([]string, n)
 		for i := range elems {
@@ -559,7 +573,7 @@ func checkPos(c PosCell, res *result) {
 				}
 				for i, a := range seen[0] {
 					want := reflect.New(in[i+1])
-					if !isNull[i] && !missing[i] {
+					if !missing[i] { // a null element is decoded like any other (encoding/json leaves most types at zero for null)
 						if err := json.Unmarshal([]byte(elems[i]), want.Interface()); err != nil {
 							res.add("C16", c, params, "harness: "+err.Error())
 						}
